@@ -20,17 +20,36 @@ RULE = ("for every size n = 1..7 and every family (dense integer / dyadic / unif
         "(operation, size, family, outcome).")
 CORR_ONLY = ["the constants c of the accuracy clauses (c*n*kappa*eps for X and X*M, c*n*kappa^2*eps for M*X; "
              "K*eps*permanent(|A|) for the determinant) are calibrated, not proved (floating-point backward error)"]
-ASSUMPTIONS = ["the determinant is representable: matrices whose exact determinant is non-zero but rounds to 0 in double (|det| < 2^-1074, "
+ASSUMPTIONS = ["no margin between 'invertible' and 'nearly singular' any more: every matrix with kappa_inf <= 1e8 is requested (audit 2, P1); "
+               "should the floating-point determinant of such a matrix be exactly 0, Invertible()/Inverse() follow it and the request alarms",
+               "the determinant is representable: matrices whose exact determinant is non-zero but rounds to 0 in double (|det| < 2^-1074, "
                "e.g. 2^-540 * I_2) are outside the quantifier - Determinant() returns the correctly rounded value 0 for them and "
                "Invertible()/Inverse() follow that value (audit item 15)",
                "kappa_inf = |M|_inf * |M^-1|_inf computed exactly; eps = 2^-53",
                "Invertible() is decided by the floating-point determinant: requests keep a relative margin from det = 0"]
 TRUSTED = ["props/c05.py: exact fraction elimination (determinant, inverse) used by the oracle"]
 
-C_INV = 4           # c of the inverse accuracy clause (audit: worst observed 1.18)
+C_INV = 2           # c of the inverse accuracy clause (audit 2: worst observed 0.89)
+C_LU = 4            # Determinant against a pivoted-LU reference: |d - det| <= C_LU * n * kappa_inf * eps * |det|
 K_LAW = 8           # determinant laws on general doubles: K_LAW * eps * permanent scale
 KAPPA_MAX = 10 ** 8
+# clauses that wait for a decision of the integrator (a patch applied to /repo or a known-finding entry): while an id is
+# listed here its clause is only counted (evidence: input_distribution 'pending-<id>'); LP_ASSUME_FIXED=<id,...> makes it strict
+PENDING = {"P1"}
+
+
+def pending(pid):
+    import os
+    return pid in PENDING and pid not in os.environ.get("LP_ASSUME_FIXED", "").split(",")
+
 # exactly singular (exact rank) AND Determinant() != 0 AND Inverse returned normally: audit defect 1
+# audit 2, P1: the cofactor expansion carries an absolute error ~ eps*perm(|A|) whatever the condition number; when the exact
+# determinant is smaller than that (several small singular values) the result misses the accuracy a pivoted-LU reference
+# has, up to the wrong sign.  Emitted ONLY when the absolute clause (n+2)*eps*perm(|A|) holds and the relative one fails,
+# i.e. only for (n+2)*eps*perm(|A|) > C_LU*n*kappa_inf*eps*|det A|.
+P1_CLAUSE = ("Determinant (cofactor expansion) is within (n+2)*eps*perm(|A|) of the exact determinant but misses the accuracy of a "
+             "pivoted-LU reference, C_LU*n*kappa_inf*eps*|det A|, with C_LU = 4 (cancellation in the expansion: exact |det A| < "
+             "(n+2)*perm(|A|)/(4*n*kappa_inf))")
 RESIDUE_CLAUSE = "exactly singular matrix whose Determinant() is a non-zero rounding residue: Inverse returned numbers instead of a diagnostic"
 
 
@@ -306,6 +325,33 @@ def overflow_cofactor(rng, n):
     return M
 
 
+
+def orthogonal(rng, n):
+    """a random nearly orthogonal matrix in doubles (Gram-Schmidt)"""
+    Q = []
+    while len(Q) < n:
+        v = [rng.gauss(0, 1) for _ in range(n)]
+        for q in Q:
+            dq = sum(a * b for a, b in zip(v, q)); v = [a - dq * b for a, b in zip(v, q)]
+        nv = math.sqrt(sum(a * a for a in v))
+        if nv > 1e-3:
+            Q.append([a / nv for a in v])
+    return Q
+
+
+def multi_small_sv(rng, n, kappa, profile):
+    """U * diag(sigma) * V^T with several small singular values: geometric profile 1 .. 1/kappa, or {1, 1/k, ..., 1/k}"""
+    if profile == "geometric":
+        sig = [kappa ** (-i / (n - 1.0)) for i in range(n)] if n > 1 else [1.0]
+    elif profile == "two_small":
+        sig = [1.0] * (n - 2) + [kappa ** -0.5, 1.0 / kappa]
+    else:
+        m_ = max(1, n // 2)
+        sig = [1.0] * (n - m_) + [1.0 / kappa] * m_
+    U, V = orthogonal(rng, n), orthogonal(rng, n)
+    return [[sum(U[i][k] * sig[k] * V[j][k] for k in range(n)) for j in range(n)] for i in range(n)]
+
+
 def tiny_scale(rng, n):
     """well-conditioned matrix times a scale that puts the determinant into the subnormal range (non-zero)"""
     kind = rng.choice(["id", "sperm", "upper", "int"])
@@ -336,12 +382,10 @@ FAMS = ["rankdef_inexact", "int", "dyadic", "uniform", "perm", "sperm", "zeromin
 
 
 def admissible(M):
-    """exactly singular with small integers, or comfortably invertible with kappa <= 1e8"""
+    """exactly singular with small integers, or invertible with kappa_inf <= 1e8 (no further margin: audit 2, P1)"""
     d = fdet(M)
     if d == 0:
         return all(float(x).is_integer() and abs(x) <= 40 for r in M for x in r) and len(M) <= 7, None
-    if abs(d) < Fraction(1, 2 ** 36) * rowprod(M):
-        return False, None
     X = finv(M)
     kap = ninf(M) * ninf(X)
     return kap <= KAPPA_MAX, kap
@@ -403,6 +447,25 @@ def generate(tier, seed, ctx):
     for M in (col_dep, [[0.1, -0.8, -0.1], [0.2, -1.6, -0.2], [-0.3, 0.8, -0.6]], [[0.3, 0.7], [0.3, 0.7]], [[0.1, 0.2, 0.7], [0.9, 0.4, 0.3], [0.1, 0.2, 0.7]]):
         R.append("c05.gate " + mat_tok(M)); ctx["fam"][R[-1]] = "residue_singular"
         R.append("c05.inverse " + mat_tok(M)); ctx["fam"][R[-1]] = "residue_singular"
+    # several small singular values, kappa 1e6..1e8 (audit 2, P1: KNOWN FINDING C05-laplace-cancellation).  The deterministic part
+    # runs in every tier so that the known-finding line is printed at every seed.
+    p1_rng = random.Random(20260928)
+    p1 = [[[1.000002, -0.6, 0.0, 0.1, 0.7], [0.7, 0.200002, -0.5, -0.5, 0.8], [0.3, -0.8, 0.500002, 0.6, -0.1],
+           [-0.4, -1.0, 1.0, 1.100002, -0.9], [1.0, -0.6, 0.0, 0.1, 0.700001]]]
+    for n in (4, 5, 6, 7):
+        for prof in ("geometric", "two_small", "half_small"):
+            p1.append(multi_small_sv(p1_rng, n, 10.0 ** p1_rng.uniform(6.3, 7.6), prof))
+    for _ in range(40 if thorough else 6):
+        n = rng.randint(3, 7)
+        p1.append(multi_small_sv(rng, n, 10.0 ** rng.uniform(5.5, 7.8), rng.choice(["geometric", "two_small", "half_small"])))
+    for M in p1:
+        ok, kap = admissible(M)
+        if not ok:
+            bump(ctx, "skipped-outside-quantifier"); continue
+        m = mat_tok(M)
+        for op in ("c05.det", "c05.inverse", "c05.gate"):
+            R.append(op + " " + m); ctx["fam"][R[-1]] = "multi_small_sv"
+        R.append("c05.detlaws %s %s" % (m, mat_tok(multi_small_sv(p1_rng if M in p1[:13] else rng, len(M), 100.0, "geometric")))); ctx["fam"][R[-1]] = "multi_small_sv"
     # vanishing first-row entries with overflowing cofactors (fix 07c574c)
     for n in range(3, 8):
         for _ in range(6 if thorough else 2):
@@ -558,6 +621,18 @@ def oracle(op, a, impl, ctx, scale_model=None):
                 bad.append("det(transpose A) differs from det A by more than 8 eps perm")
             if n >= 2 and abs(dSw + dA) > K_LAW * EPS * pA:
                 bad.append("row exchange does not flip the sign (to 8 eps perm)")
+            if not bad and eA != 0 and eB != 0:
+                # the accuracy of a pivoted-LU reference for every determinant that enters the laws
+                kA = ninf(M) * ninf(finv(M)); kB = ninf(B) * ninf(finv(B))
+                tA = C_LU * n * kA * EPS * abs(eA); tB = C_LU * n * kB * EPS * abs(eB)
+                tAB = C_LU * n * (kA * kB) * EPS * abs(eA * eB) + abs(eA) * tB + abs(eB) * tA
+                if (abs(dA - eA) > tA or abs(dAT - eA) > tA or (n >= 2 and abs(dSw + eA) > tA) or abs(dB - eB) > tB
+                        or abs(dAB - eA * eB) > tAB):
+                    if pending("P1"):
+                        bump(ctx, "pending-P1:determinant-laws-miss-LU-accuracy")
+                        return None
+                    return (P1_CLAUSE, "laws: det A = %r (exact %r, kappa %.3g), det A^T = %r, swapped = %r, det B = %r (exact %r), det AB = %r" % (
+                        float(dA), float(eA), float(kA), float(dAT), float(dSw), float(dB), float(eB), float(dAB)))
         return ("determinant law: " + "; ".join(bad), "") if bad else None
     if op == "c05.gate":
         if not sq:
@@ -605,6 +680,15 @@ def oracle(op, a, impl, ctx, scale_model=None):
         if scale > 0:
             r = float(abs(Fraction(v) - d) / (EPS * scale))
             ctx["worst"]["det"] = max(ctx["worst"]["det"], r / (n + 2))
+        if d != 0:
+            kap = ninf(M) * ninf(finv(M))
+            rel = abs(Fraction(v) - d) / (n * kap * EPS * abs(d))
+            if rel > C_LU and pending("P1"):
+                bump(ctx, "pending-P1:determinant-misses-LU-accuracy")
+            elif rel > C_LU:
+                return (P1_CLAUSE, "Determinant() = %r, exact %r, kappa_inf = %.3g, n = %d: error %.3g * n*kappa*eps*|det|" % (v, float(d), float(kap), n, float(rel)))
+            if rel <= C_LU:
+                ctx["worst"]["detLU"] = max(ctx["worst"].get("detLU", 0.0), float(rel))
         return None
     if op == "c05.invertible":
         if ti_ != "ok":
@@ -658,7 +742,7 @@ def compare(rq, impl, model, ctx):
     scale = fr(tm[1]) if (op == "c05.det" and tm_ == "ok") else None
     po = oracle(op, a, impl, ctx, scale)
     if po:
-        return [fail("prop", op[4:] + ": " + po[0], po[1])]
+        return [fail("prop", po[0] if po[0] == P1_CLAUSE else op[4:] + ": " + po[0], po[1])]
     out = []
     if both:
         ti = toks(impl)
@@ -703,7 +787,7 @@ def oracle_only(rq, impl, ctx):
     a = rq.split()[1:]
     ctx.setdefault("worst", dict(det=0.0, inv=0.0, xm=0.0, mx=0.0))
     po = oracle(op, a, impl, ctx)
-    return [fail("prop", op[4:] + ": " + po[0], po[1])] if po else []
+    return [fail("prop", po[0] if po[0] == P1_CLAUSE else op[4:] + ": " + po[0], po[1])] if po else []
 
 
 def finalize(ctx, exe):
